@@ -1519,14 +1519,63 @@ def config_object_clauses(st: dict, o: Out) -> None:
             o.c("hist_key_required_by_schema")
             continue
         o.c("hist_optional_key_omitted")
+        keylabel = path[0] if len(path) == 1 else (f"{sk}.{path[1]}" if path[1] in ("header", "*") else f"{sk}.<register>")
+        obj = None
         try:
-            area.load_raw(inst, copy.deepcopy(c))
+            obj = area.load_raw(inst, copy.deepcopy(c))
         except SPSDKError:
             o.c("hist_optional_key_omitted_rejected")
         except Exception as e:  # noqa
-            keylabel = path[0] if len(path) == 1 else (f"{sk}.{path[1]}" if path[1] in ("header", "*") else f"{sk}.<register>")
             o.v("object-history", f"{kind.split('.')[0]}:optional-key-omitted:{keylabel}:{type(e).__name__}",
                 f"{iid}: the area's schema accepts the configuration without {'.'.join(path)}, loading it raises {type(e).__name__}: {str(e)[:200]}")
+        # what was accepted has to export to a binary the area's own parser (and verifier) takes and reproduces; for the
+        # XMCD header (sizes and selectors the builder has to work out itself when it is left out) also with every bit-field
+        # of the first register of the block at each of its values
+        # (only for keys inside the settings: leaving out family / revision / type selects another instance, which the
+        # parser of THIS instance need not take)
+        todo = [("", c, obj)] if (obj is not None and path[0] == sk) else []
+        if obj is not None and kind == "xmcd" and path == (sk, "header") and isinstance(c.get(sk), dict):
+            mdl: Optional[AR.AreaModel] = st["mdl"].get("model")
+            regs = [n for n in c[sk] if isinstance(c[sk][n], dict)]
+            r = mdl.reg(regs[0]) if (mdl is not None and regs) else None
+            if r is not None:
+                for fname in c[sk][regs[0]]:
+                    f = r.field(fname)
+                    if f is None or f.calculated is not None:
+                        continue
+                    for v in AR.alphabet(f.width, True):
+                        c2 = copy.deepcopy(c)
+                        c2[sk][regs[0]][fname] = v << f.shift
+                        todo.append((f"+{regs[0]}.{fname}={v}", c2, None))
+        for label, cc, ob in todo:
+            try:
+                ob = ob if ob is not None else area.load_raw(inst, copy.deepcopy(cc))
+                data = area.export(ob)
+            except SPSDKError:
+                o.c("hist_optional_key_omitted_rejected")
+                continue
+            except Exception as e:  # noqa
+                o.v("object-history", f"{kind.split('.')[0]}:optional-key-omitted:{keylabel}:export-{type(e).__name__}",
+                    f"{iid}{label}: without {'.'.join(path)}: {type(e).__name__}: {str(e)[:200]}")
+                continue
+            o.c("hist_optional_key_omitted_exported")
+            try:
+                back = area.parse(inst, data)
+                bad = area.verify(back)
+                again = area.export(back)
+            except NotImplementedError:
+                o.c("hist_optional_key_omitted_area_has_no_parser")
+                continue
+            except Exception as e:  # noqa
+                o.v("object-history", f"{kind.split('.')[0]}:optional-key-omitted:{keylabel}:own-parser-refuses",
+                    f"{iid}{label}: the binary exported from the configuration without {'.'.join(path)} ({len(data)} bytes) is refused by the area's parser: {type(e).__name__}: {str(e)[:160]}")
+                continue
+            if bad:
+                o.v("object-history", f"{kind.split('.')[0]}:optional-key-omitted:{keylabel}:own-verifier-refuses",
+                    f"{iid}{label}: the binary exported from the configuration without {'.'.join(path)} ({len(data)} bytes): {str(bad)[-300:]}")
+            elif again != data:
+                o.v("object-history", f"{kind.split('.')[0]}:optional-key-omitted:{keylabel}:parse-export-differs",
+                    f"{iid}{label}: parse + export of the binary built without {'.'.join(path)} gives {len(again)} bytes / other content ({len(data)} exported)")
 
 
 def hist_case(case: dict) -> dict:
